@@ -48,12 +48,12 @@ package ipfslog
 //@   requires rootEntries == nil || validEntries(rootEntries)
 //@   lockrequires held[l.lock] != 0
 //@   ensures rootEntries == nil ==> err != nil
-//@   ensures rootEntries != nil ==> err == nil && validEntries(result0) && fresh(result0) && fresh(om(result0).values)
+//@   ensures rootEntries != nil ==> err == nil && validEntries(result0) && fresh(result0) && fresh(om(result0).values) && freshKeys(om(result0))
 //@   ensures [traverse-respects-amount] rootEntries != nil && amount >= 0 ==> len(om(result0).keys) <= amount
 //@   ensures [traverse-returns-roots-or-log-entries] rootEntries != nil ==> forall k string :: has(om(result0).values, k) ==> inMap(rootEntries, om(result0).values[k]) || inMap(l.Entries, om(result0).values[k])
 //@   lockensures rootEntries != nil ==> held[om(result0).lock] == 0
 //@   loop 0
-//@     invariant validEntries(result) && fresh(result) && fresh(om(result).values) && fresh(traversed) && fresh(stack)
+//@     invariant validEntries(result) && fresh(result) && fresh(om(result).values) && fresh(traversed) && fresh(stack) && freshKeys(om(result))
 //@     invariant validSlice(stack)
 //@     invariant amount >= 0 ==> 0 <= count && len(om(result).keys) <= count && count <= amount
 //@     invariant forall k string :: has(om(result).values, k) ==> inMap(rootEntries, om(result).values[k]) || inMap(l.Entries, om(result).values[k])
@@ -61,7 +61,7 @@ package ipfslog
 //@     lockinvariant held[om(result).lock] == 0
 //@     loopfresh
 //@   loop 1
-//@     invariant validEntries(result) && fresh(result) && fresh(om(result).values) && fresh(traversed) && fresh(stack)
+//@     invariant validEntries(result) && fresh(result) && fresh(om(result).values) && fresh(traversed) && fresh(stack) && freshKeys(om(result))
 //@     invariant validSlice(stack)
 //@     invariant amount >= 0 ==> 0 <= count && len(om(result).keys) <= count && count <= amount
 //@     invariant forall k string :: has(om(result).values, k) ==> inMap(rootEntries, om(result).values[k]) || inMap(l.Entries, om(result).values[k])
@@ -69,3 +69,21 @@ package ipfslog
 //@     invariant validEntry(e)
 //@     lockinvariant held[om(result).lock] == 0
 //@     loopfresh
+
+//@ func (*IPFSLog).values
+//@   requires l != nil && validEntries(l.Entries) && l.SortFn != nil && (l.heads == nil || validEntries(l.heads))
+//@   lockrequires held[l.lock] != 0
+//@   ensures validEntries(result) && fresh(result) && fresh(om(result).values)
+//@   ensures [values-are-log-entries] forall k string :: has(om(result).values, k) ==> inMap(l.heads, om(result).values[k]) || inMap(l.Entries, om(result).values[k])
+//@   lockensures held[om(result).lock] == 0
+
+//@ func getEveryPow2
+//@   requires validEntries(all) && maxDistance <= 281474976710656
+//@   lockrequires held[om(all).lock] >= 0
+//@   ensures validSlice(result) && (result == nil || fresh(result))
+//@   ensures [references-come-from-the-traversal] forall i int :: 0 <= i && i < len(result) ==> inMap(all, result[i])
+//@   loop 0
+//@     invariant 1 <= i && i <= 562949953421312
+//@     invariant validSlice(entries)
+//@     invariant entries == nil || fresh(entries)
+//@     invariant forall j int :: 0 <= j && j < len(entries) ==> inMap(all, entries[j])
